@@ -21,7 +21,7 @@ ASSUMPTIONS = [
 ]
 PLAN = {
     "quick": {"shards": 8, "shard_timeout": 300, "case_timeout": 30, "runs": 2000, "max_case_timeouts": 3},
-    "thorough": {"shards": 16, "shard_timeout": 3600, "case_timeout": 60, "runs": 300000, "max_case_timeouts": 10},
+    "thorough": {"shards": 16, "shard_timeout": 3600, "case_timeout": 60, "runs": 1200000, "max_case_timeouts": 10},
 }
 THRESHOLDS = {
     "quick": {"runs_checked": 600, "budget_checks": 5000, "alg:gp": 100, "alg:rs": 100, "alg:hc": 100, "alg:opo": 100, "kind:evaluation": 200, "kind:target": 100, "kind:anyof": 150, "target_reached_runs": 60, "zero_creation_runs": 10},
